@@ -132,7 +132,28 @@ def _pairs(s):
     return collections.OrderedDict((("k%s" % kv.split("=")[0]), int(kv.split("=")[1])) for kv in s.split(","))
 
 
+class _Timeout(Exception):
+    pass
+
+
 def real_scope_program(ops):
+    """Guarded by an alarm: a Scope that loops for ever is reported as a broken tie, not as a hang."""
+    import signal
+
+    def onalarm(signum, frame):
+        raise _Timeout()
+    old = signal.signal(signal.SIGALRM, onalarm)
+    signal.alarm(5)
+    try:
+        return _real_scope_program(ops)
+    except _Timeout:
+        return "timeout"
+    finally:
+        signal.alarm(0)
+        signal.signal(signal.SIGALRM, old)
+
+
+def _real_scope_program(ops):
     from shroud import util, ast
     S = []
     out = []
